@@ -65,7 +65,8 @@ CHECKS = {
          "accepts; hash256 encoding and hash() are invariant under property/mapping/format order and descriptions; the alias-boundary "
          "clause is refuted (Props/C13.v). The property itself is decided metamorphically on the implementation: random programs and "
          "1-3 random meaning-preserving rewrites are both compiled and compared on validate() over type-directed values and on "
-         "hash256().",
+         "hash256(); generic aliases / interfaces (colliding parameter names, a global alias named like a parameter, applications with "
+         "non-trivial arguments) are compared with the same type instantiated by hand on the generator's AST.",
          "The frontend lowering and the printer are not modelled in Coq (their output is observed); rewrites come from the generator's "
          "AST; hoisting is sharing of identical sub-validators and has no counterpart in the model."),
  "C09": ("Theorems on the identifier-assignment model (Model/Names.v = to_valid_ts_identifier, min_file_path_that_differs, "
@@ -104,7 +105,8 @@ CHECKS = {
          "means (C01_literal_union_validator_means_the_union); C01_refuted_for_short_tuples pins the tuple finding on the model. "
          "The printer model is tied to printer.rs by comparing its output on the compiler's own "
          "IR with the tree dumped from the emitted module; the frontend (TypeScript -> IR) is not modelled and is judged on generated "
-         "programs by a reference membership of the source type and by rmember of the IR in Coq, on type-directed values.",
+         "programs by a reference membership of the source type and by rmember of the IR in Coq, on type-directed values (directed by the "
+         "emitted tree and, where that differs from the model's print of the same IR, by the model's tree).",
          "Partial: template-literal patterns (regex semantics), tuples with a prefix element that accepts undefined, intersections with a "
          "member that is not object-only (both have known findings) and the link "
          "'members of a discriminator dispatch node = flattened union' are outside the theorem and covered by the search; object types are read as "
@@ -122,7 +124,13 @@ CHECKS = {
          "(C05_list_only_types_not_assignable_has_a_separating_value, Proofs/ListComplete.v), so that there the decision is exactly "
          "inclusion (C05_list_only_types_assignability_is_inclusion); C05_basic_types_assignability_is_inclusion: the same on the basic "
          "fragment; is_same_type answers true exactly when both directions do. The list model is tied to bdd.rs by comparing its three decisions per pair with the engine's, using the engine's "
-         "own list atoms. Partial: check_mapping_empty and the memoised co-inductive cut (recursive types) are not modelled; there the property is decided on the implementation by comparing every "
+         "own list atoms. Objects: Model/MappingEmpty.v = mapping.rs intersect_mapping / check_mapping_empty / mapping_is_empty_impl and dnf.rs bdd_to_dnf "
+         "for atoms without index signature, tied to the engine on the engine's own object and list atoms; C05_flat_object_clause_empty_iff_covered: "
+         "for field types without structural components the clause decider answers 'empty' exactly when every exact record of the positive is an open "
+         "record of some negative, and 'not empty' comes with a separating record; C05_flat_object_conjunction_empty_iff_covered: the same for a "
+         "conjunction of positive atoms under the engine's merge reading (open member of every atom, no key that none declares) "
+         "(Proofs/MappingSound.v; the abstract version is parametric in the element level). Partial: index signatures, the Map variant and the memoised "
+         "co-inductive cut (recursive types; a listed finding shows it is unsound) are not proved; there the property is decided on the implementation by comparing every "
          "decision, on generated pairs converted in both orders and queried in two orders, with a bounded enumeration of the exact values "
          "of the left type. Six genuine defects were repaired in /repo (fix: a6cefb8, 16f31f9, 3a0fd83, 10e351d and the third list fix — "
          "both found while proving list_inhabited sound / complete — and 09b6a21).",
